@@ -32,19 +32,19 @@ CHECKS = {
                 note="Bounds are engineering bounds (2x the documented limit + one buffer); the wall watchdog is inconclusive unless reproduced alone. Memory safety of dependencies is addressed only as far as Miri/valgrind passes reach (see DESIGN.md)."),
     "C06": dict(cat="fault_enumeration", design="DESIGN.md §3 C06",
                 technique="runtime monitoring with fault injection: reference encoders (flate2 levels 0-9, hand-written stored/fixed-Huffman encoder, gzip header options) produce the streams; every truncation offset and every trailer bit flip is served; payload is the prefix oracle after every read",
-                text="Compressed responses over all block types, levels, gzip header options, coding declarations (letter case, lists, Content-/Transfer-Encoding), framings, segmentations and read plans must decode to exactly the payload; unknown codings must pass through unchanged; every truncation offset of 10 fixed streams (framing adjusted or left short) and every bit flip of the gzip trailer must end with Err with only a payload prefix delivered; corrupted gzip bodies must not decode cleanly to different bytes; Accept-Encoding is observed on the wire. With Content-Length framing, bytes that follow the frame on the connection must not reach the decoder.",
+                text="Compressed responses over all block types, levels, gzip header options, coding declarations (letter case, lists, Content-/Transfer-Encoding), framings, segmentations and read plans must decode to exactly the payload; unknown codings must pass through unchanged; every truncation offset of 10 fixed streams (framing adjusted or left short) and every bit flip of the gzip trailer must end with Err with only a payload prefix delivered; corrupted gzip bodies must not decode cleanly to different bytes; Accept-Encoding is observed on the wire. With Content-Length framing, bytes that follow the frame on the connection must not reach the decoder. Requests are made with and without allow_compression and with several methods (decoding depends on the response only); the JSON helpers are driven against damaged gzip trailers.",
                 note="Trusts the reference encoders (cross-checked against flate2's decoder in the harness unit test). zlib-wrapped deflate, multi-member gzip and flips in raw-deflate bodies are outside the judged zone."),
     "C18": dict(cat="exploration", design="DESIGN.md §3 C18",
                 technique="runtime monitoring over a bounded-exhaustive configuration matrix plus every-cut segmentation: scripted responses, one-shot encoding_rs decode as oracle for the charset the statement selects",
-                text="Every exported charset x labels (canonical + WHATWG aliases, three letter cases) x Content-Type form x default-charset setting x API (text, text_with, text_utf8, text_reader with caller buffers 1..8192) x body kind (valid, random, truncated multi-byte tail, lone surrogates / escape garbage), every single cut offset of 14 multi-byte bodies, and random cases incl. BOM-prefixed bodies (judged for segmentation independence only); the decoded string must equal the one-shot decode with the selected charset and no API may fail.",
+                text="Every exported charset x labels (canonical + WHATWG aliases, three letter cases) x Content-Type form x default-charset setting x API (text, text_with, text_utf8, text_reader with caller buffers 1..8192) x body kind (valid, random, truncated multi-byte tail, lone surrogates / escape garbage), every single cut offset of 14 multi-byte bodies, and random cases incl. BOM-prefixed bodies (judged for segmentation independence only); the decoded string must equal the one-shot decode with the selected charset and no API may fail. Labels of the WHATWG replacement decoder count as known labels.",
                 note="encoding_rs (the library the crate itself uses) is the decoding oracle: what is checked is the choice of charset, totality and chunking independence, not encoding_rs's tables."),
     "C07": dict(cat="exploration", design="DESIGN.md §3 C07",
                 technique="runtime monitoring of the bytes received by the scripted peer: independent strict request parser (cross-checked with httparse), de-chunking reference decoder and a value model of the builder calls as oracle, over generated builder programs and custom Body programs with write faults",
-                text="Generated programs of builder calls and user-defined streaming bodies (arbitrary sequences of write/write_all/flush/empty write/write_vectored, BufWriter-wrapped or not) are sent; the bytes on the connection must decode as exactly one request whose method, percent-decoded path, query pairs, per-name header lists, credentials and de-framed body equal the inputs, with consistent framing and exactly one Connection: close, under short-write and Interrupted schedules. A request written after a send that failed mid-write on the same thread is judged the same way.",
+                text="Generated programs of builder calls and user-defined streaming bodies (arbitrary sequences of write/write_all/flush/empty write/write_vectored, BufWriter-wrapped or not) are sent; the bytes on the connection must decode as exactly one request whose method, percent-decoded path, query pairs, per-name header lists, credentials and de-framed body equal the inputs, with consistent framing and exactly one Connection: close, under short-write and Interrupted schedules. A request written after a send that failed mid-write on the same thread is judged the same way. A body source that fails part-way must make send() fail without the truncated body being sealed as a complete request.",
                 note="Trusts the harness's request parser / value model (written from the documentation of the builder methods). Host is judged by C08; multipart part decoding by C15."),
     "C08": dict(cat="exploration", design="DESIGN.md §3 C08",
                 technique="runtime monitoring over a bounded-exhaustive configuration matrix: dial log of hook H1 plus the request bytes received by the peer (decrypted by a live TLS server behind the scripted CONNECT reply for tunnelled rows), reference decision function as oracle",
-                text="All 27 648 combinations of scheme, host kind (domain/IDN/IPv4/IPv6), port form, path, query, fragment, URL userinfo, proxy kind, proxy userinfo/port and caller-set Host are sent; the address handed to the connector and the request target / Host field seen by the peer must equal what the reference function derives from the statement.",
+                text="All 27 648 combinations of scheme, host kind (domain/IDN/IPv4/IPv6), port form, path, query, fragment, URL userinfo, proxy kind, proxy userinfo/port and caller-set Host are sent; the address handed to the connector and the request target / Host field seen by the peer must equal what the reference function derives from the statement. Caller-supplied Host fields (none, one, two, session + appended) are all replaced by the one computed Host; redirect Locations with credentials and fragments are judged too.",
                 note="The quick tier runs a stride of the tunnelled rows (each needs a TLS handshake), the thorough tier all of them. The Host field of proxied plain-http requests is recorded, not judged."),
     "C09": dict(cat="exploration", design="DESIGN.md §3 C09",
                 technique="runtime monitoring of request histories: the harness plays the whole web through reactive scripted transports; the walk observed (address dialled + request target per hop) is compared with a simulation of the same table using the harness's own RFC 3986 resolver",
@@ -52,7 +52,7 @@ CHECKS = {
                 note="Judged on the subset of reference syntax where RFC 3986 and the WHATWG URL standard agree; the rest is executed and only its prefix judged."),
     "C11": dict(cat="exploration", design="DESIGN.md §3 C11",
                 technique="runtime monitoring of the public decision function and of the dial: exhaustive small-scope host x no-proxy-list space and the 8-variable environment space (each shard process owns its environment), reference decision returning sets of acceptable outcomes",
-                text="All hosts of 1..3 labels over a 5-label alphabet (+ IP literals, mixed case) x all no-proxy lists of <= 2 entries over 10 entry shapes x scheme x proxy configuration, through the builder and through NO_PROXY; all 7^8 assignments of the eight proxy variables in thorough (20 000 sampled in quick); end-to-end sends confirm that the address dialled agrees with for_url.",
+                text="All hosts of 1..3 labels over a 5-label alphabet (+ IP literals, mixed case) x all no-proxy lists of <= 2 entries over 10 entry shapes x scheme x proxy configuration, through the builder and through NO_PROXY; all 7^8 assignments of the eight proxy variables in thorough (20 000 sampled in quick); end-to-end sends confirm that the address dialled agrees with for_url. Default-settings requests made while each environment is in force must dial what that environment implies (no stale process-wide state).",
                 note="No hook needed. Gray cases (listed in the evidence assumptions) are executed but not judged."),
     "C10": dict(cat="exploration", design="DESIGN.md §3 C10",
                 technique="runtime monitoring of per-hop wire bytes and dial log in scripted redirect chains (tunnelled hops observed through a live TLS server); per-hop application of the C07 request oracle, the reference proxy decision and cross-hop equality for 307/308",
@@ -60,7 +60,7 @@ CHECKS = {
                 note="Method/body after 301/302/303 are not compared. Tunnelled hops are generated in one case out of four (TLS handshake cost)."),
     "C15": dict(cat="exploration", design="DESIGN.md §3 C15",
                 technique="runtime monitoring of the transmitted body: independent multipart/form-data decoder (boundary taken from the Content-Type on the wire) over generated forms, with a coverage bitset of part-edge offsets modulo the 8 KiB copy buffer",
-                text="Generated forms (0..6 text fields x 0..5 files incl. the empty form, binary data with look-alike delimiter lines incl. the previous request's boundary, sizes sweeping every edge offset mod 8192, UTF-8 names/filenames, MIME parameters, short-write schedules) must build, prepare and send, and the de-chunked body must decode to exactly the multiset of parts added, with a closing delimiter and nothing after it.",
+                text="Generated forms (0..6 text fields x 0..5 files incl. the empty form, binary data with look-alike delimiter lines incl. the previous request's boundary, sizes sweeping every edge offset mod 8192, UTF-8 names/filenames, MIME parameters, short-write schedules) must build, prepare and send, and the de-chunked body must decode to exactly the multiset of parts added, with a closing delimiter and nothing after it. Requests that already carry a Content-Type (session default, set or appended by the caller) must still announce the boundary.",
                 note="Part order is not judged. The decoder is the harness's own (unit-tested); content types are compared as parsed Mime values."),
     "C16": dict(cat="exploration", design="DESIGN.md §3 C16",
                 technique="runtime monitoring of operation histories: real objects and a value model executed in lock-step; settings-snapshot hook checked on every live object after every operation, wire probes (headers, redirect bound, header limit, proxy dialled, connector arguments) on every send; objects then spread over concurrently operating threads",
